@@ -405,7 +405,7 @@ _REF_CACHE = None
 class Repo:
     """Parsed view of the repository's package sources (tests excluded)."""
 
-    def __init__(self, root="/repo", overrides=None, is_reference=False):
+    def __init__(self, root="/repo", overrides=None, is_reference=False, use_reference=True):
         self.is_reference = is_reference
         self.substituted = {}      # qual -> note, functions analysed in their reference form (proven equivalent)
         self.restructured = {}     # qual -> why the current form could not be proven equivalent to the reference form
@@ -448,7 +448,7 @@ class Repo:
         with open(kf, encoding="utf-8") as fh:
             self.known_funcs = {l.strip() for l in fh if l.strip() and not l.startswith("#")}
         self._link_dispatch()
-        if not is_reference and not os.environ.get("VERIF_NO_REFERENCE"):
+        if not is_reference and use_reference and not os.environ.get("VERIF_NO_REFERENCE"):
             self._use_reference_forms()
 
     def _use_reference_forms(self):
